@@ -212,7 +212,7 @@ func (c *conn) run(kind, query string, args []Value, binary bool) ([]*result, er
 	s.mu.Lock()
 	defer s.mu.Unlock()
 	if c.closed {
-		return nil, driver.ErrBadConn
+		return nil, c.deadErr()
 	}
 	e := Entry{Kind: kind, Conn: c.id, SQL: query, Args: args}
 	if err := s.fault(Op{Conn: c.id, Kind: kind, SQL: query}); err != nil {
@@ -263,7 +263,7 @@ func (c *conn) PrepareContext(ctx context.Context, query string) (driver.Stmt, e
 	s.mu.Lock()
 	defer s.mu.Unlock()
 	if c.closed {
-		return nil, driver.ErrBadConn
+		return nil, c.deadErr()
 	}
 	e := Entry{Kind: "prepare", Conn: c.id, Txn: c.txid(), SQL: query}
 	if err := s.fault(Op{Conn: c.id, Kind: "prepare", SQL: query}); err != nil {
@@ -298,7 +298,7 @@ func (c *conn) BeginTx(ctx context.Context, opts driver.TxOptions) (driver.Tx, e
 	s.mu.Lock()
 	defer s.mu.Unlock()
 	if c.closed {
-		return nil, driver.ErrBadConn
+		return nil, c.deadErr()
 	}
 	// the options travel the way go-sql-driver/mysql sends them: SET TRANSACTION ISOLATION LEVEL ... and START TRANSACTION READ ONLY
 	beginSQL := "START TRANSACTION"
@@ -388,6 +388,17 @@ func (c *conn) ResetSession(ctx context.Context) error {
 
 func (c *conn) IsValid() bool { return !c.closed }
 
+// deadErr is what a statement on a connection the server has dropped answers. By default driver.ErrBadConn (database/sql
+// retries on another connection); a check may set Server.DeadConnErr to the real driver's behaviour after a silent
+// server-side close, where the request is written before the loss is noticed: mysql.ErrInvalidConn, which is not retried -
+// only ResetSession / Ping / IsValid report the connection as bad.
+func (c *conn) deadErr() error {
+	if c.srv.DeadConnErr != nil {
+		return c.srv.DeadConnErr
+	}
+	return driver.ErrBadConn
+}
+
 func (c *conn) CheckNamedValue(nv *driver.NamedValue) error {
 	v, err := converter{}.ConvertValue(nv.Value)
 	nv.Value = v
@@ -473,7 +484,7 @@ func (t *tx) Commit() error {
 	s.mu.Lock()
 	defer s.mu.Unlock()
 	if c.closed {
-		return driver.ErrBadConn
+		return c.deadErr()
 	}
 	e := Entry{Kind: "commit", Conn: c.id, Txn: c.txid(), SQL: "COMMIT"}
 	if err := s.fault(Op{Conn: c.id, Kind: "commit", SQL: "COMMIT"}); err != nil {
@@ -504,7 +515,7 @@ func (t *tx) Rollback() error {
 	s.mu.Lock()
 	defer s.mu.Unlock()
 	if c.closed {
-		return driver.ErrBadConn
+		return c.deadErr()
 	}
 	e := Entry{Kind: "rollback", Conn: c.id, Txn: c.txid(), SQL: "ROLLBACK"}
 	if err := s.fault(Op{Conn: c.id, Kind: "rollback", SQL: "ROLLBACK"}); err != nil {
